@@ -53,7 +53,7 @@ func mkRaw(s ref65816.State, stale int, intr byte) cpuh.Raw {
 		r.E = 1
 	}
 	if stale != 0 {
-		r.Dirt = 1 // the stale-copy valuations also start from junk in the non-architectural fields
+		r.Dirt = 1                   // the stale-copy valuations also start from junk in the non-architectural fields
 		r.AllCycles = ^uint64(0) - 2 // ... and from a running cycle total that is about to wrap
 	}
 	st16 := []uint16{0, 0xFFFF, 0xA5A5}[stale]
